@@ -216,6 +216,13 @@ func (k *Kaudit) Exec(ses string, pid, uid int, argv []string, ok bool, withExec
 		var b strings.Builder
 		fmt.Fprintf(&b, "type=EXECVE %s argc=%d", hdr, len(argv))
 		for i, a := range argv {
+			if len(argv) > 40 && i > 0 && i%12 == 0 {
+				// a long argument vector does not fit one record: the kernel continues it in further
+				// EXECVE records of the same event (without argc)
+				ls = append(ls, b.String())
+				b.Reset()
+				fmt.Fprintf(&b, "type=EXECVE %s", hdr)
+			}
 			if strings.ContainsAny(a, " \"'\t") {
 				// the kernel hex-encodes arguments with blanks or quotes
 				fmt.Fprintf(&b, " a%d=%s", i, strings.ToUpper(hex.EncodeToString([]byte(a))))
@@ -225,6 +232,11 @@ func (k *Kaudit) Exec(ses string, pid, uid int, argv []string, ok bool, withExec
 		}
 		ls = append(ls, b.String())
 		ev.Args = argv
+		if len(argv) > 40 {
+			// (the coalescing library does not put a continued argument vector together again:
+			// the audit event built from these records has no process arguments)
+			ev.Args = nil
+		}
 	}
 	ls = append(ls, fmt.Sprintf("type=CWD %s cwd=\"/home/user%d\"", hdr, uid))
 	ls = append(ls, fmt.Sprintf("type=PATH %s item=0 name=\"%s\" inode=1442550 dev=fd:00 mode=0100755 ouid=0 ogid=0 rdev=00:00 nametype=NORMAL cap_fp=0 cap_fi=0 cap_fe=0 cap_fver=0 cap_frootid=0", hdr, exe))
@@ -292,7 +304,8 @@ var users = []string{"alice", "bob", "carol", "dave", "erin", "frank", "root", "
 var ips = []string{"10.0.0.7", "192.168.1.20", "2001:db8::1", "fe80::1%eth0", "172.16.3.4", "host.example.org"}
 var algs = []string{"ED25519", "RSA", "ECDSA", "ED25519-SK"}
 var cmds = [][]string{{"ls", "-la"}, {"cat", "/etc/resolv.conf"}, {"id"}, {"sudo", "-i"}, {"rm", "-rf", "/tmp/x"}, {"vi", "notes.txt"},
-	{"grep", " 500 ", "access.log"}, {"sh", "-c", "echo \"done\" "}, {"touch", "\tfile with blanks "}}
+	{"grep", " 500 ", "access.log"}, {"sh", "-c", "echo \"done\" "}, {"touch", "\tfile with blanks "},
+	{"git", "commit", "-mfixes-ticket#0351"}, {"less", "build#0352.log"}}
 
 // userName draws an account name that is unique per login; some end in the upper-case letters
 // "ID" (DAVID, ANDROID, svcID are ordinary account names).
